@@ -207,7 +207,7 @@ class CFG(object):
         return [(n, None)]
 
     # -- dominators (iterative; graphs are tiny)
-    def dominators(self, use_exc=False):
+    def dominators(self, use_exc=True):
         key = bool(use_exc)
         if key in self._dom:
             return self._dom[key]
@@ -492,7 +492,7 @@ def gens(node):
     return out
 
 
-def must_facts(cfg, modsum=None, use_exc=False, entry_facts=()):
+def must_facts(cfg, modsum=None, use_exc=True, entry_facts=()):
     """Forward must-analysis.  Returns {node id: frozenset(facts) holding on ENTRY to the node}
     (None for unreachable nodes)."""
     IN = {n.id: None for n in cfg.nodes}
